@@ -204,7 +204,10 @@ def check(run):
     run.assumptions += ["filters contain no reference to earlier captured events, no arithmetic and no calls (outside the modelled fragment; such "
                         "sub-expressions are handed to the same VPL evaluator by expr_to_sase_predicate)",
                         "the pest grammar parses the text of a filter to the same AST under `.where(..)` and under `-> B where ..` (tested by the Engine half)"]
+    import time
+    t0 = time.time()
     binpath = C.build_all(run, "theories/Cmp/Props_C09.vo", "C09.v")
+    t0 = C.phase(run, "translate+coq+audit+cargo", t0)
     if binpath is None:
         return
     rng = run.rng
@@ -223,8 +226,10 @@ def check(run):
         cases.append((f, evs))
 
     answers = harness.run_jsonl(binpath, [api_req(f, evs) for f, evs in cases])
+    t0 = C.phase(run, "impl filters", t0)
     model = C.model_eval(run, "C09", ["filter_case %s [%s]" % (C.g_expr(f), "; ".join(C.g_event(e) for e in evs)) for f, evs in cases])
 
+    t0 = C.phase(run, "model filters", t0)
     n_or = n_corr = n_known = 0
     flags_by_case = []
     for k, ((f, evs), ans, sm) in enumerate(zip(cases, answers, model)):
@@ -282,6 +287,7 @@ def check(run):
     for _, (f, evs) in ecases:
         reqs += engine_reqs(f, evs)
     eans = harness.run_jsonl(binpath, reqs)
+    t0 = C.phase(run, "engine programs", t0)
     pos = 0
     n_eng = n_eng_known = n_eng_corr = 0
     for k, (f, evs) in ecases:
